@@ -736,6 +736,10 @@ func c05Corpus(req, reply []byte, e *Env) (items [][]byte, classes []string) {
 		for n := 0; n <= 20; n++ {
 			out, cl = append(out, refbmc.BuildRsp(0x81, rqNetFn+1, 0, 0x20, rqSeq, 0, rqCmd, 0, bytes.Repeat([]byte{0xff}, n))), append(cl, fmt.Sprintf("ok-body-len-%d", n))
 		}
+		// right command, every completion code
+		for code := 1; code < 256; code++ {
+			out, cl = append(out, refbmc.BuildRsp(0x81, rqNetFn+1, 0, 0x20, rqSeq, 0, rqCmd, byte(code), nil)), append(cl, fmt.Sprintf("code-%#02x", code))
+		}
 		return
 	}
 	se := e.BMC.Sess
